@@ -22,7 +22,7 @@ Local Open Scope string_scope.
    Results are compared as what they are: label sets as maps from names to values, queries key by key
    (res_equiv).  C02_equivalent_checked is the same with every hypothesis as a computable test, which the
    correspondence run evaluates on its inputs (evidence: model_theorem_applies).  *)
-From KV Require Import Proofs.TranslateEquiv.
+From KV Require Import Proofs.TranslateEquiv Proofs.TranslateRules.
 
 Theorem C02_equivalent :
   forall (R : labels -> option labels) (np aok : string -> bool) (iok : string -> string -> bool)
@@ -47,6 +47,29 @@ Theorem C02_equivalent_checked :
   res_equiv (sharded R np aok iok c hash d) (plain R np aok iok c d).
 Proof. exact sharded_equiv_plain_checked. Qed.
 Print Assumptions C02_equivalent_checked.
+
+(* For relabel programs of the interpreter (the literal-pattern subset the correspondence run generates) the hypothesis
+   on the two relabel runs is itself a theorem: every hypothesis below is about the COORDINATOR's run alone -
+   the discovered set carries no interval label, the rule list passes blind_run along that run (no rule reads or writes
+   an interval label, labelmap neither matches nor produces one, labeldrop does not match one, labelkeep keeps both), and
+   the relabelled set has the shape relabelled_ok.  The run one plain Prometheus makes (interval labels in the input) is
+   then proved to be the coordinator's run plus the two labels (Proofs/TranslateRules.v rules_rel). *)
+Theorem C02_equivalent_for_rules : forall rs np aok iok c hash d,
+  (forall a, np a = true -> np (a ++ ":80") = false /\ np (a ++ ":443") = false) ->
+  cfg_okb c = true ->
+  strip d = d -> nd d -> ne d ->
+  blind_run rs (pre false c d) = true ->
+  (forall Lc, relabel_rules rs (pre false c d) = Some Lc -> relabelled_ok Lc) ->
+  res_equiv (sharded (relabel_rules rs) np aok iok c hash d) (plain (relabel_rules rs) np aok iok c d).
+Proof. exact sharded_equiv_plain_rules. Qed.
+Print Assumptions C02_equivalent_for_rules.
+
+Theorem C02_equivalent_for_rules_checked : forall rs np aok iok c hash d,
+  (forall a, np a = true -> np (a ++ ":80") = false /\ np (a ++ ":443") = false) ->
+  rules_hyp_okb rs c d = true ->
+  res_equiv (sharded (relabel_rules rs) np aok iok c hash d) (plain (relabel_rules rs) np aok iok c d).
+Proof. exact sharded_equiv_plain_rules_checked. Qed.
+Print Assumptions C02_equivalent_for_rules_checked.
 
 (* the shard's labels, closed form: what the shard's Prometheus holds for a query parameter of the job *)
 Theorem C02_param_on_shard :
@@ -103,9 +126,9 @@ Proof. vm_compute. split; reflexivity. Qed.
 (* the hypotheses of C02_equivalent_checked hold on this witness (a configured parameter overridden by a rule, a
    mapped name starting with a digit) and on the port test of the correspondence run *)
 Example C02_hypotheses_satisfiable :
-  cfg_okb w_cfg = true /\ hyp_okb (relabel_rules w_rules) w_cfg w_d = true /\
+  cfg_okb w_cfg = true /\ hyp_okb (relabel_rules w_rules) w_cfg w_d = true /\ rules_hyp_okb w_rules w_cfg w_d = true /\
   (forall a, x_needs_port a = true -> x_needs_port (a ++ ":80") = false /\ x_needs_port (a ++ ":443") = false).
-Proof. split; [vm_compute; reflexivity|]. split; [vm_compute; reflexivity|]. exact x_needs_port_add. Qed.
+Proof. split; [vm_compute; reflexivity|]. split; [vm_compute; reflexivity|]. split; [vm_compute; reflexivity|]. exact x_needs_port_add. Qed.
 
 (* the full statement without the hypothesis on the interval labels is false: a rule that copies
    __scrape_interval__ into a visible label (the known finding, replayed on the code by the correspondence run) *)
